@@ -23,7 +23,7 @@ def corpus():
         "progress.seq s1,s1,s1,S1,s1,T",
         "progress.seq s9,s8,s7,S1,s6,s5,S1,s10,T",
         "progress.seq u5,s3,u7,T",
-        "scn.measure 30 120", "scn.measure 10 150 failnow", "scn.measure 10 150 panic", "scn.measure 10 120 fail", "scn.measure 10 120 require",
+        "scn.measuremany 4000", "scn.measure 30 120", "scn.measure 10 150 failnow", "scn.measure 10 150 panic", "scn.measure 10 120 fail", "scn.measure 10 120 require",
     ]
 
 
